@@ -14,8 +14,14 @@ func unitDispatch(name string, args []string, out *bufio.Writer) bool {
 	case "conc-ring":
 		concRing(args, out)
 		return true
+	case "hook-ring":
+		hookRing(args, out)
+		return true
 	case "conc-flight":
 		concFlight(args, out)
+		return true
+	case "conc-resize":
+		concResize(args, out)
 		return true
 	case "conc-lin":
 		concLin(args, out)
